@@ -575,10 +575,18 @@ pub struct HumanSpan {
 
 impl HumanSpan {
     fn from_range(before: Span, after: Span) -> Self {
+        let column_end = if after.location_line() == before.location_line() {
+            after.get_column()
+        } else {
+            // The construct continues on a later line: a span only has one line number, so
+            // stop at the end of the line it starts on.
+            let first_line_len = before.find('\n').unwrap_or(before.len());
+            before.get_column() + first_line_len
+        };
         Self {
             line: before.location_line() as usize,
             column_start: before.get_column(),
-            column_end: after.get_column(),
+            column_end,
         }
     }
 
